@@ -16,6 +16,7 @@ import ALV.Lemmas.C02Chain
 import ALV.Lemmas.C02Round
 import ALV.Lemmas.C02Two
 import ALV.Lemmas.C02Src
+import ALV.Lemmas.C02Hist
 import ALV.Common.Audit
 
 namespace ALV.Props.C02
@@ -820,6 +821,139 @@ example : (Gen.C02.attack 2 1 (fun (x : Nat) i => x + i) (fun x i => 10 * x + i)
     [1, 1, 1, 2, 3] ∧ (Gen.C02.zero_pad 2 1 0).pulls [5, 6] 5 = [0, 0, 1, 2, 2] ∧
     (Gen.C02.skip 2).pulls [1, 2, 3, 4] 2 = [3, 4] := by
   refine ⟨?_, ?_, ?_⟩ <;> rw [pulls_eq] <;> decide
+
+/-! ## 12. Sources handed over WHILE the stage is being consumed
+
+Histories of `attach` (hand the stage another counted source), `fork` (another copy of a tee branch) and
+`ask` (one `next()`), the pull counter of EVERY source observed after EVERY event (`hrun`).  Machines:
+`mixStep` (`Streamix.add` before / during playback), `seqStep` (`Stream.append` on a partially consumed
+stream), `fanStep` (a filter / stage called again), `hubStep` (`Stream.copy`, `StreamTeeHub`, `thub` of a
+partially consumed stream), `ctlStep` (`ControlStream` assignments between reads). -/
+
+/-- **C02.12a** handing a source over reads NOTHING, in any state of the stage (consumed or not, ended or
+not): every counter already there is unchanged and the new one is 0; taking another copy of a tee branch
+leaves the source counter alone. -/
+theorem attach_reads_nothing (t : Rat) (len : Nat) :
+    (∀ s : Mix, (mixStep s (.attach t len)).2 = ⟨true, s.reads ++ [0]⟩) ∧
+    (∀ s : SeqSt, (seqStep s (.attach t len)).2 = ⟨true, s.reads ++ [0]⟩ ∧
+        (seqStep s (.attach t len)).1.reads = s.reads ++ [0]) ∧
+    (∀ s : List FSrc, (fanStep s (.attach t len)).2 = ⟨true, s.map (·.rd) ++ [0]⟩) ∧
+    (∀ (s : Hub) (p : Nat), (hubStep s (.fork p)).2 = ⟨true, [s.rd]⟩ ∧ (hubStep s (.fork p)).1.rd = s.rd) := by
+  refine ⟨fun s => ?_, fun s => ⟨rfl, ?_⟩, fun s => rfl, fun s p => ⟨rfl, rfl⟩⟩
+  · simp [mixStep, Mix.attach, Mix.reads]
+  · simp [seqStep, SeqSt.reads]
+
+/-- **C02.12a'** the same, read off the observation the tie compares: the counters seen right after an `add`
+are the old ones and a 0, and the `add` "delivers" (it cannot fail) -/
+theorem mixer_add_observation (s : Mix) (t : Rat) (len : Nat) :
+    (mixStep s (.attach t len)).2.reads = s.reads ++ [0] ∧ (mixStep s (.attach t len)).2.ok = true := by
+  rw [(attach_reads_nothing t len).1 s]; exact ⟨rfl, rfl⟩
+
+/-- **C02.12b** mixer, every history (events added before the first request, between requests, after the
+mixer has ended; `keep` or not): after every event every event source has exactly
+`min len (outputs delivered - start)` items read, and a request delivers iff the generator has not ended
+and (`keep` or some event has an item left to give or is still waiting). -/
+theorem mixer_trace_eq_spec (keep : Bool) (es : List HEv) :
+    hrun mixStep (Mix.init keep) es = hspecRun mixStep mixSpecObs (Mix.init keep) es := by
+  refine hrun_eq_spec mixStep mixSpecObs MixInv mixInv_step (fun s e h => ?_) es _ (mixInv_init keep)
+  have h' := mixInv_step s e h
+  cases e with
+  | attach t len => exact congrArg (HObs.mk true) (mix_reads_eq_spec _ h')
+  | fork p => exact congrArg (HObs.mk true) (mix_reads_eq_spec _ h')
+  | ask c =>
+    show HObs.mk s.ask.1 s.ask.2.reads = HObs.mk s.specOk s.ask.2.specReads
+    rw [mix_ask_ok s h]
+    exact congrArg (HObs.mk _) (mix_reads_eq_spec s.ask.2 h')
+
+/-- **C02.12c** the clause in the words of the property: an event with absolute time `T` handed to the
+mixer after ANY history `h1` (`a` outputs taken) starts at request `max a ⌈T - 1/2⌉`, and after ANY further
+history `h2` (more requests, more events) exactly `min len (k - start)` of its items have been read, `k` the
+number of outputs delivered so far - never one more, whenever it was added. -/
+theorem mixer_attach_during_consumption (keep : Bool) (h1 h2 : List HEv) (T : Rat) (len : Nat) :
+    ∃ e, (hfinal mixStep (Mix.init keep) (h1 ++ .attach T len :: h2)).evs[
+            (hfinal mixStep (Mix.init keep) h1).evs.length]? = some e ∧
+      e.len = len ∧
+      e.start = mixStartSpec (hfinal mixStep (Mix.init keep) h1).now T ∧
+      e.rd = min len ((hfinal mixStep (Mix.init keep) (h1 ++ .attach T len :: h2)).now -
+          max (hfinal mixStep (Mix.init keep) h1).now (T - 1 / 2).ceil.toNat) := by
+  have hinv := mixInv_final (Mix.init keep) (h1 ++ .attach T len :: h2) (mixInv_init keep)
+  rw [hfinal_append] at hinv ⊢
+  generalize hfinal mixStep (Mix.init keep) h1 = s1 at hinv ⊢
+  have h0 : (mixStep s1 (.attach T len)).1.evs[s1.evs.length]? =
+      some ⟨max s1.now (smixStart T), len, 0, false⟩ := by
+    show (s1.evs ++ [_])[s1.evs.length]? = _
+    simp
+  obtain ⟨e, he, hs, hl⟩ := mix_static h2 _ _ _ h0
+  refine ⟨e, he, hl, ?_, ?_⟩
+  · rw [hs, smixStart_eq]; rfl
+  · have := (hinv e (List.mem_of_getElem? he)).1
+    rw [this, hs, hl, smixStart_eq]; rfl
+
+/-- **C02.12d** `Stream.append` at any moment: with `d` outputs delivered, source `j` has
+`min len_j (d - Σ_{i<j} len_i)` items read (`seqSpec`) - a source appended to a partially consumed stream is
+not touched before everything in front of it has ended; a request delivers iff `d < Σ len`. -/
+theorem append_trace_eq_spec (es : List HEv) :
+    hrun seqStep SeqSt.init es = hspecRun seqStep seqSpecObs SeqSt.init es := by
+  refine hrun_eq_spec seqStep seqSpecObs SeqInv seqInv_step (fun s e h => ?_) es _ ⟨rfl, Nat.le_refl _⟩
+  have h' := (seqInv_step s e h).1
+  cases e with
+  | attach t len =>
+    refine congrArg (HObs.mk true) ?_
+    rw [← h']; simp [seqStep, SeqSt.reads]
+  | fork p => exact congrArg (HObs.mk true) h'
+  | ask c =>
+    have hs := seqAsk_spec s.srcs s.outs h.1
+    show HObs.mk (seqAsk s.srcs).1 ((seqAsk s.srcs).2.map (·.rd)) = HObs.mk _ _
+    congr 1
+    · by_cases hlt : s.outs < seqSum (s.srcs.map (·.len))
+      · rw [(hs.2.1 hlt).1]; simp [hlt]
+      · rw [(hs.2.2 (by omega)).1]; simp [hlt]
+
+/-- **C02.12e** a stage called again on another source: consumer `c` reads its own source only, one item
+per request while it lasts: `min len_c (requests on c)`. -/
+theorem recall_trace_eq_spec (es : List HEv) :
+    hrun fanStep [] es = hspecRun fanStep fanSpecObs [] es := by
+  refine hrun_eq_spec fanStep fanSpecObs FanInv fanInv_step (fun s e h => ?_) es _ (fun e he => by cases he)
+  have h' := fanInv_step s e h
+  have key : ((fanStep s e).1).map (·.rd) = fanSpec (fanStep s e).1 :=
+    List.map_congr_left (fun x hx => h' x hx)
+  cases e with
+  | attach t len =>
+    refine congrArg (HObs.mk true) ?_
+    rw [← key]; simp [fanStep]
+  | fork p => exact congrArg (HObs.mk true) key
+  | ask c => exact congrArg (HObs.mk _) key
+
+/-- **C02.12f** tee hubs (`Stream.copy`, `StreamTeeHub` copies, `thub` of a partially consumed stream):
+taking a copy at any moment reads nothing, and after any history the source has been read exactly as far
+as the consumer that is furthest ahead. -/
+theorem hub_trace_eq_spec (len : Nat) (es : List HEv) :
+    hrun hubStep (Hub.init len) es = hspecRun hubStep hubSpecObs (Hub.init len) es := by
+  refine hrun_eq_spec hubStep hubSpecObs HubInv hubInv_step (fun s e h => ?_) es _
+    ⟨fun p hp => by simp [Hub.init] at hp; omega, by simp [Hub.init], Nat.zero_le _⟩
+  have h' := hub_reads_eq_spec _ (hubInv_step s e h)
+  cases e with
+  | attach t n => exact congrArg (fun r => HObs.mk true [r]) h'
+  | fork p => exact congrArg (fun r => HObs.mk true [r]) h'
+  | ask c => exact congrArg (fun r => HObs.mk _ [r]) h'
+
+/-- **C02.12g** `ControlStream`: a request shows the LAST assignment made before it (the value is looked up
+when it is asked for, not when it is assigned, and never one request late). -/
+theorem control_trace_eq_spec (n : Nat) (es : List HEv) : hrun ctlStep n es = ctlSpec n es := by
+  induction es generalizing n with
+  | nil => rfl
+  | cons e es ih => cases e <;> simp [hrun, ctlStep, ctlSpec, ih]
+
+/-- the seeded history: background at 0, three outputs, then an event of 6 items for sample 6 -/
+example : (hrun mixStep (Mix.init false)
+    [.attach 0 14, .ask 0, .ask 0, .ask 0, .attach 6 6, .ask 0, .ask 0, .ask 0, .ask 0, .ask 0]).map (·.reads) =
+    [[0], [1], [2], [3], [3, 0], [4, 0], [5, 0], [6, 0], [7, 1], [8, 2]] := by decide +kernel
+example : (hrun mixStep (Mix.init false) [.attach 1 1, .ask 0, .ask 0, .ask 0, .attach 0 3, .ask 0]).map (·.ok) =
+    [true, true, true, false, true, false] ∧ mixStartSpec 3 (5 / 2) = 3 ∧ mixStartSpec 1 (5 / 2) = 2 := by decide +kernel
+example : (hrun seqStep SeqSt.init [.attach 0 2, .ask 0, .attach 0 2, .ask 0, .ask 0, .ask 0, .ask 0, .attach 0 1, .ask 0]).map
+    (·.reads) = [[0], [1], [1, 0], [2, 0], [2, 1], [2, 2], [2, 2], [2, 2, 0], [2, 2, 1]] := by decide
+example : (hrun hubStep (Hub.init 5) [.ask 0, .ask 0, .fork 0, .ask 1, .fork 1, .ask 2, .ask 0]).map (·.reads) =
+    [[1], [2], [2], [3], [3], [4], [4]] := by decide
 
 end ALV.Props.C02
 
